@@ -1,6 +1,7 @@
 import UbxModel.Proofs.CfgKeysRoundtrip
 namespace Ubx
 open Spec
+variable [KeyTable]
 
 /-- the size code always indexes the 8-entry table: `bitsFromKey` cannot fail, and yields 0 or a valid size -/
 theorem bitsFromKey_total (k : Nat) : ∃ bits, bitsFromKey k = .ok bits ∧ (bits = 0 ∨ validBits bits) ∧
@@ -110,6 +111,7 @@ end Ubx
 
 namespace Ubx
 open Spec
+variable [KeyTable]
 
 /-- **C14 (dichotomy).** Decoding any byte string either raises `ValueError`, or yields an item and
     a length `n ≤ |s|` such that encoding the item gives the key id rebuilt from its three fields
